@@ -1,8 +1,9 @@
 /-
 C16 — Membership change events add up to the live membership.
 
-Model: `Model/Membership.lean` (`watchStep` = one iteration of `watch_membership_changes`, the
-latest-value channel, a subscriber applying `left` then `joined`).  Lists are read as sets /
+Model: `Model/Membership.lean` (`watchStep`/`delta` = `membership_delta`, the latest-value
+channel carrying snapshots, the per-subscriber `MembershipChanges` stream, a subscriber applying
+`left` then `joined`).  Lists are read as sets /
 maps: all statements are about membership.
 -/
 import Datacake.Lemmas.Membership
@@ -79,72 +80,170 @@ theorem delta_applies (w : Watcher) (snap : Snapshot) (hw : WatcherOk w) (hs : D
         exact hj2 (this ▸ hold)
     · left; exact (hJ m).2 ⟨hnew, hold⟩
 
-/-! ### A subscriber that misses nothing -/
+/-! ### Every subscriber tracks the membership (the full statement) -/
 
-/-- One publication followed immediately by one read of a subscriber that had seen the previous
-publication. -/
-def publishAndRead (st : Watcher × Chan × Sub) (snap : Snapshot) : Watcher × Chan × Sub :=
-  let (w, c, s) := st
-  let (d, w') := watchStep w snap
-  let c' := c.send d
-  (w', c', (s.poll c').2)
+/-- **delta_between**: the difference between any two snapshots, applied to a live map that holds
+the other members of the first, yields the other members of the second. -/
+theorem delta_between (self : Nat) (last snap : Snapshot) (hl : DistinctIds last) (hs : DistinctIds snap)
+    (live : List Member) (hlive : SameSet live (networkSet self last)) :
+    SameSet (applyDelta live (delta self last snap)) (networkSet self snap) :=
+  delta_applies { self := self, lastSet := networkSet self last, lastSnap := last } snap ⟨rfl, hl⟩ hs live hlive
 
-/-- **lossless_subscriber_tracks** (the part of the property that holds): a subscriber that
-exists from the first snapshot on and reads after every publication holds, after every snapshot,
-exactly the other members of that snapshot. -/
-theorem lossless_subscriber_tracks (snaps : List Snapshot) (hs : ∀ s ∈ snaps, DistinctIds s)
-    (w : Watcher) (c : Chan) (s : Sub) (hw : WatcherOk w) (hseen : s.seen = some c.version)
-    (hlive : SameSet s.live (networkSet w.self w.lastSnap)) :
-    let r := snaps.foldl publishAndRead (w, c, s)
-    SameSet r.2.2.live (networkSet r.1.self r.1.lastSnap) ∧ r.1.self = w.self ∧
-    (∀ last, snaps.getLast? = some last → r.1.lastSnap = last) := by
-  induction snaps generalizing w c s with
-  | nil => exact ⟨hlive, rfl, fun _ h => by cases h⟩
-  | cons x xs ih =>
-    simp only [List.foldl_cons]
-    have hx := hs x List.mem_cons_self
-    obtain ⟨_, _, hw', hself, hsnap⟩ := delta_exact w x hw hx
-    have happ := delta_applies w x hw hx s.live hlive
-    have hstep : publishAndRead (w, c, s) x =
-        ((watchStep w x).2, c.send (watchStep w x).1,
-          { seen := some (c.version + 1), live := applyDelta s.live (watchStep w x).1 }) := by
-      simp only [publishAndRead, Sub.poll, Chan.send, hseen]
-      rw [if_neg (by simp)]
-    rw [hstep]
-    obtain ⟨r1, r2, r3⟩ := ih (fun s' hs' => hs s' (List.mem_cons_of_mem _ hs')) (watchStep w x).2
-      (c.send (watchStep w x).1)
-      { seen := some (c.version + 1), live := applyDelta s.live (watchStep w x).1 } hw' rfl
-      (by rw [hself, hsnap]; exact happ)
-    refine ⟨r1, r2.trans hself, ?_⟩
-    intro last hlast
-    cases xs with
-    | nil => simp at hlast; subst hlast; simpa using hsnap
-    | cons y ys => exact r3 last (by simpa using hlast)
+/-- What happens around one node's membership channel: the node's watcher publishes the snapshot
+it has processed, a new subscriber appears (at any time), subscriber `i` polls its stream. -/
+inductive Ev where
+  | pub (snap : Snapshot)
+  | sub
+  | read (i : Nat)
 
-/-! ### The full statement is false of the unchanged code (known finding D9) -/
+structure World where
+  chan : Chan := {}
+  subs : List Sub := []
 
-def run (self : Nat) (script : List (Option Snapshot)) : Chan × Sub × Snapshot :=
+def step (self : Nat) (w : World) : Ev → World
+  | .pub snap => { w with chan := w.chan.send snap }
+  | .sub => { w with subs := w.subs ++ [{}] }
+  | .read i =>
+    match w.subs[i]? with
+    | some s => { w with subs := w.subs.set i (s.poll self w.chan).2 }
+    | none => w
+
+def run (self : Nat) (evs : List Ev) : World := evs.foldl (step self) {}
+
+/-- Snapshots have distinct ids (they are `BTreeMap`s keyed by node id). -/
+def ValidEv : Ev → Prop
+  | .pub snap => DistinctIds snap
+  | _ => True
+
+/-- The subscriber's live map holds exactly the other members of the snapshot its stream handed
+out last; that snapshot is the channel's if the subscriber has seen the channel's version. -/
+def SubOk (self : Nat) (c : Chan) (s : Sub) : Prop :=
+  SameSet s.live (networkSet self s.last) ∧ DistinctIds s.last ∧
+  (s.seen = some c.version → s.last = c.value) ∧ (∀ v, s.seen = some v → v ≤ c.version)
+
+def WorldOk (self : Nat) (w : World) : Prop :=
+  DistinctIds w.chan.value ∧ ∀ s ∈ w.subs, SubOk self w.chan s
+
+theorem subOk_new (self : Nat) (c : Chan) : SubOk self c {} :=
+  ⟨fun m => (by simp [networkSet]), fun a ha => (by cases ha), fun h => (by cases h), fun v h => (by cases h)⟩
+
+theorem subOk_poll (self : Nat) (c : Chan) (s : Sub) (hc : DistinctIds c.value) (h : SubOk self c s) :
+    SubOk self c (s.poll self c).2 ∧ (s.poll self c).2.seen = some c.version := by
+  obtain ⟨h1, h2, h3, h4⟩ := h
+  unfold Sub.poll
+  by_cases hseen : s.seen = some c.version
+  · rw [if_pos hseen]; exact ⟨⟨h1, h2, h3, h4⟩, hseen⟩
+  · rw [if_neg hseen]
+    exact ⟨⟨delta_between self s.last c.value h2 hc s.live h1, hc, fun _ => rfl,
+      fun v hv => by cases hv; exact Nat.le_refl _⟩, rfl⟩
+
+theorem subOk_send (self : Nat) (c : Chan) (snap : Snapshot) (s : Sub) (h : SubOk self c s) :
+    SubOk self (c.send snap) s := by
+  obtain ⟨h1, h2, _, h4⟩ := h
+  refine ⟨h1, h2, ?_, ?_⟩
+  · intro hv
+    have := h4 _ hv
+    simp only [Chan.send] at this
+    omega
+  · intro v hv
+    have := h4 v hv
+    simp only [Chan.send]
+    omega
+
+theorem worldOk_step (self : Nat) (w : World) (e : Ev) (hv : ValidEv e) (h : WorldOk self w) :
+    WorldOk self (step self w e) := by
+  obtain ⟨hc, hs⟩ := h
+  cases e with
+  | pub snap => exact ⟨hv, fun s hs' => subOk_send self w.chan snap s (hs s hs')⟩
+  | sub =>
+    refine ⟨hc, fun s hs' => ?_⟩
+    simp only [step, List.mem_append, List.mem_singleton] at hs'
+    rcases hs' with h | rfl
+    · exact hs s h
+    · exact subOk_new self w.chan
+  | read i =>
+    simp only [step]
+    cases hi : w.subs[i]? with
+    | none => exact ⟨hc, hs⟩
+    | some s0 =>
+      refine ⟨hc, fun s hs' => ?_⟩
+      simp only at hs'
+      rcases List.mem_or_eq_of_mem_set hs' with h | rfl
+      · exact hs s h
+      · exact (subOk_poll self w.chan s0 hc (hs s0 (List.mem_of_getElem? hi))).1
+
+theorem worldOk_init (self : Nat) : WorldOk self {} :=
+  ⟨fun a ha => (by cases ha), fun s hs => (by cases hs)⟩
+
+theorem worldOk_run (self : Nat) (evs : List Ev) (hv : ∀ e ∈ evs, ValidEv e) (w : World) (h : WorldOk self w) :
+    WorldOk self (evs.foldl (step self) w) := by
+  induction evs generalizing w with
+  | nil => exact h
+  | cons e es ih =>
+    exact ih (fun e' he' => hv e' (List.mem_cons_of_mem _ he')) _ (worldOk_step self w e (hv e List.mem_cons_self) h)
+
+/-- **subscriber_tracks** (C16, full statement): whatever the order of publications, subscriptions
+and reads — subscribers created late, subscribers that skip any number of publications — every
+subscriber's live map holds exactly the other members of the snapshot its stream handed out last,
+and right after a read that is the CURRENT membership. -/
+theorem subscriber_tracks (self : Nat) (evs : List Ev) (hv : ∀ e ∈ evs, ValidEv e) (i : Nat) (s : Sub)
+    (hs : (run self (evs ++ [.read i])).subs[i]? = some s) :
+    SameSet s.live (networkSet self (run self evs).chan.value) ∧
+    (run self (evs ++ [.read i])).chan = (run self evs).chan := by
+  have hw : WorldOk self (run self evs) := worldOk_run self evs hv {} (worldOk_init self)
+  unfold run at hs ⊢
+  rw [List.foldl_append] at hs ⊢
+  simp only [List.foldl_cons, List.foldl_nil, step] at hs ⊢
+  cases hi : (List.foldl (step self) {} evs).subs[i]? with
+  | none => rw [hi] at hs; simp only at hs; rw [hi] at hs; cases hs
+  | some s0 =>
+    rw [hi] at hs
+    simp only at hs ⊢
+    have hlt : i < (List.foldl (step self) {} evs).subs.length := by
+      rcases List.getElem?_eq_some_iff.1 hi with ⟨h, _⟩; exact h
+    rw [List.getElem?_set_self hlt] at hs
+    cases hs
+    obtain ⟨hok, hseen⟩ := subOk_poll self _ s0 hw.1 (hw.2 s0 (List.mem_of_getElem? hi))
+    refine ⟨?_, trivial⟩
+    have := hok.2.2.1 hseen
+    unfold run at this
+    rw [← this]
+    exact hok.1
+
+/-- Between reads nothing is lost either: at any time every subscriber holds the other members of
+SOME published snapshot (the one it read last), never a mixture. -/
+theorem subscriber_consistent (self : Nat) (evs : List Ev) (hv : ∀ e ∈ evs, ValidEv e) (s : Sub)
+    (hs : s ∈ (run self evs).subs) : SameSet s.live (networkSet self s.last) :=
+  ((worldOk_run self evs hv {} (worldOk_init self)).2 s hs).1
+
+/-- Non-vacuity: a late and slow subscriber of the D9 witness ends with both other members. -/
+example : ((run 0 [.pub [(0, 100), (1, 101)], .pub [(0, 100), (1, 101), (2, 102)], .sub, .read 0]).subs.map (·.live))
+    = [[(1, 101), (2, 102)]] := by decide
+
+/-! ### The tree before the fix for D9: deltas on the latest-value channel lose members -/
+
+def runLegacy (self : Nat) (script : List (Option Snapshot)) : ChanLegacy × SubLegacy × Snapshot :=
   -- `some snap` = a publication, `none` = the subscriber reads
-  let r := script.foldl (fun (st : Watcher × Chan × Sub) ev =>
+  let r := script.foldl (fun (st : Watcher × ChanLegacy × SubLegacy) ev =>
     match ev with
     | some snap => let (d, w') := watchStep st.1 snap; (w', st.2.1.send d, st.2.2)
     | none => (st.1, st.2.1, (st.2.2.poll st.2.1).2)) ({ self := self }, {}, {})
   (r.2.1, r.2.2, r.1.lastSnap)
 
-/-- A subscriber that does not read between two publications loses the first delta: after
-`{0,1}` and `{0,1,2}` it only ever learns of node 2 — although it read twice at the end. -/
-theorem slow_subscriber_counterexample :
-    (run 0 [some [(0, 100), (1, 101)], some [(0, 100), (1, 101), (2, 102)], none, none]).2.1.live
+/-- (Before the fix.) A subscriber that does not read between two publications loses the first
+delta: after `{0,1}` and `{0,1,2}` it only ever learns of node 2 — although it read twice at the end. -/
+theorem legacy_slow_subscriber_counterexample :
+    (runLegacy 0 [some [(0, 100), (1, 101)], some [(0, 100), (1, 101), (2, 102)], none, none]).2.1.live
       = [(2, 102)] := by decide
 
-/-- A subscriber created after node 1 joined never hears of it (the stream starts with the latest
-delta only).  The eventual-consistency extension always subscribes late. -/
-theorem late_subscriber_counterexample :
+/-- (Before the fix.) A subscriber created after node 1 joined never hears of it (the stream
+starts with the latest delta only).  The eventual-consistency extension always subscribes late. -/
+theorem legacy_late_subscriber_counterexample :
     let w0 : Watcher := { self := 0 }
     let (d1, w1) := watchStep w0 [(0, 100), (1, 101)]
     let (d2, _) := watchStep w1 [(0, 100), (1, 101), (2, 102)]
-    let c := (({} : Chan).send d1).send d2
-    let late : Sub := {}
+    let c := (({} : ChanLegacy).send d1).send d2
+    let late : SubLegacy := {}
     (late.poll c).2.live = [(2, 102)] := by decide
 
 /-- Defect D8 of the pinned tree: a real departure produced an empty `left`. -/
